@@ -143,10 +143,19 @@ fn check_subject(c: &mut Case, s: &dyn Subject, thorough: bool) -> Outcome {
     }
     // batch composition with extreme rows: a row far away from the training data must not change
     // what the ordinary rows of the same batch get, nor get something else than it gets alone
-    // (labels only: they are compared exactly, so no scale enters)
-    if s.discrete() && !name.contains("multinomial") {
+    // (labels are compared exactly; continuous outputs up to the rounding floor at the scale of the
+    // largest value any row of the mixed batch gets alone)
+    // two orders: probe order with the extremes interleaved; ordinary rows in descending order of
+    // their first feature, each followed by an extreme of alternating sign (hostile to predictors
+    // that carry scan state from one row of the batch to the next)
+    for descending in [false, true] {
+      if !name.contains("multinomial") {
         let nx = 6usize;
-        let mut mixed = zoo::row_subset(&probe, &(0..n.min(10)).collect::<Vec<_>>());
+        let mut first: Vec<usize> = (0..if descending { n } else { n.min(10) }).collect();
+        if descending {
+            first.sort_by(|a, b| probe[[*b, 0]].partial_cmp(&probe[[*a, 0]]).unwrap());
+        }
+        let mut mixed = zoo::row_subset(&probe, &first);
         let base = mixed.nrows();
         let mut ext = Array2::<f64>::zeros((nx, p));
         for (r, mut row) in ext.outer_iter_mut().enumerate() {
@@ -161,7 +170,9 @@ fn check_subject(c: &mut Case, s: &dyn Subject, thorough: bool) -> Outcome {
             if i < base {
                 rows.push(mixed.row(i).to_vec());
             }
-            if i < nx {
+            if descending {
+                rows.push(ext.row([3, 0, 4, 1, 5, 2][i % nx]).to_vec());
+            } else if i < nx {
                 rows.push(ext.row(i).to_vec());
             }
         }
@@ -171,15 +182,30 @@ fn check_subject(c: &mut Case, s: &dyn Subject, thorough: bool) -> Outcome {
             let row = zoo::row_subset(&mixed, &[i]);
             alone.push(s.predict(&row, Form::RefArray, Layout::C).ok().map(|p| p.rows[0].clone()));
         }
+        let mixed_max = alone.iter().flatten().flatten().fold(0.0f64, |m, v| if v.is_finite() { m.max(v.abs()) } else { m });
+        let mixed_in_max = mixed.iter().fold(0.0f64, |m, v| m.max(v.abs()));
+        let mfloor = 1024.0 * s.eps() * (p as f64) * (1.0 + mixed_max + mixed_in_max);
         for (form, layout) in [(Form::RefArray, Layout::C), (Form::RefView, Layout::F), (Form::OwnedDataset, Layout::C)] {
             match s.predict(&mixed, form, layout) {
                 Ok(pr) => {
                     ensure!(pr.rows.len() == mixed.nrows(), "C03/length/outputs-vs-rows", {"model": name, "batch": "mixed-extremes"});
                     for i in 0..mixed.nrows() {
                         if let Some(a) = &alone[i] {
-                            ensure!(&pr.rows[i] == a, "C03/rowwise/label-depends-on-batch-composition",
-                                {"model": name, "form": format!("{form:?}"), "row_in_batch": i, "row": mixed.row(i).to_vec(),
-                                 "in_mixed_batch": pr.rows[i], "alone": a});
+                            if s.discrete() {
+                                ensure!(&pr.rows[i] == a, "C03/rowwise/label-depends-on-batch-composition",
+                                    {"model": name, "form": format!("{form:?}"), "row_in_batch": i, "row": mixed.row(i).to_vec(),
+                                     "in_mixed_batch": pr.rows[i], "alone": a});
+                            } else {
+                                ensure!(pr.rows[i].len() == a.len(), "C03/length/width", {"model": name, "batch": "mixed-extremes", "row": i});
+                                for (u, v) in pr.rows[i].iter().zip(a.iter()) {
+                                    if u.is_finite() && v.is_finite() {
+                                        c.resid("mixed-extremes/resid-over-floor", (u - v).abs() / mfloor);
+                                    }
+                                    ensure!(close(*u, *v, mfloor), "C03/rowwise/value-depends-on-batch-composition",
+                                        {"model": name, "form": format!("{form:?}"), "row_in_batch": i, "row": mixed.row(i).to_vec(),
+                                         "in_mixed_batch": u, "alone": v, "floor": mfloor});
+                                }
+                            }
                         }
                     }
                     evals += 1;
@@ -188,6 +214,7 @@ fn check_subject(c: &mut Case, s: &dyn Subject, thorough: bool) -> Outcome {
             }
         }
         c.count("mixed-extremes-batches");
+      }
     }
     c.evals = evals;
     c.count_n("bit-exact-cells", bitexact);
@@ -394,6 +421,75 @@ fn check_platt(c: &mut Case) -> Outcome {
     held(true, format!("platt n={n} p={p} scale={scale} big={big} {}", c.idx))
 }
 
+/// SVM single-observation forms (`predict(row)` with a one-dimensional record) against the batch
+/// form, on mirror-symmetric problems whose separating surface passes through the queries: decision
+/// values that are exactly zero (ties) must be resolved the same way by every form.
+fn check_svm_single_observation(c: &mut Case) -> Outcome {
+    use linfa_svm::Svm;
+    let m = c.rng.gen_range(3..12usize);
+    let p = c.rng.gen_range(2..4usize);
+    let grid = c.rng.gen_bool(0.5);
+    let mut rows: Vec<Vec<f64>> = vec![];
+    let mut lab = vec![];
+    for _ in 0..m {
+        let mut r: Vec<f64> = (0..p).map(|_| if grid { c.rng.gen_range(-3..4) as f64 } else { c.rng.gen_range(-3.0..3.0) }).collect();
+        r[0] = if grid { c.rng.gen_range(1..4) as f64 } else { c.rng.gen_range(0.5..3.0) };
+        let mut mirrored = r.clone();
+        mirrored[0] = -r[0];
+        rows.push(r);
+        lab.push(true);
+        rows.push(mirrored);
+        lab.push(false);
+    }
+    let x = Array2::from_shape_fn((rows.len(), p), |(i, j)| rows[i][j]);
+    let kind = c.rng.gen_range(0..3);
+    c.note("kernel", json!(["linear", "polynomial(1,2)", "polynomial(0,3)"][kind]));
+    c.note("pairs", json!(m));
+    c.note("grid", json!(grid));
+    // queries: on the mirror plane (x0 = 0), training rows, random rows
+    let nq = 12;
+    let q = Array2::from_shape_fn((nq, p), |(i, j)| {
+        if i < 6 {
+            if j == 0 { 0.0 } else if grid { c.rng.gen_range(-3..4) as f64 } else { c.rng.gen_range(-3.0..3.0) }
+        } else if i < 9 {
+            rows[(i * 7) % rows.len()][j]
+        } else {
+            c.rng.gen_range(-3.0..3.0)
+        }
+    });
+    let ds = Dataset::new(x, Array1::from(lab));
+    let params = match kind {
+        0 => Svm::<f64, bool>::params().linear_kernel(),
+        1 => Svm::<f64, bool>::params().polynomial_kernel(1.0, 2.0),
+        _ => Svm::<f64, bool>::params().polynomial_kernel(0.0, 3.0),
+    };
+    let cc = [0.1, 1.0, 100.0][c.rng.gen_range(0..3)];
+    let model = match guarded(|| params.pos_neg_weights(cc, cc).fit(&ds)) {
+        Ok(Ok(m)) => m,
+        Ok(Err(e)) => return inconclusive(format!("svm fit: {e}")),
+        Err(p) => return inconclusive(format!("svm fit panicked: {p}")),
+    };
+    let batch: Array1<bool> = model.predict(&q);
+    let mut ties = 0u64;
+    for i in 0..nq {
+        let row = q.row(i);
+        let one: bool = model.predict(row);
+        let owned: bool = model.predict(row.to_owned());
+        let one_row_batch: Array1<bool> = model.predict(&q.slice(ndarray::s![i..i + 1, ..]));
+        let dec = model.weighted_sum(&row) - model.rho;
+        if dec == 0.0 {
+            ties += 1;
+        }
+        ensure!(one == batch[i] && owned == batch[i] && one_row_batch[0] == batch[i],
+            "C03/forms/single-observation-form-differs",
+            {"model": "svm-bool", "row": row.to_vec(), "decision_value": dec, "batch": batch[i], "one_dimensional_view": one,
+             "one_dimensional_owned": owned, "one_row_batch": one_row_batch[0]});
+    }
+    c.count_n("svm-queries-with-decision-value-exactly-zero", ties);
+    c.evals = (nq * 4) as u64;
+    held(ties > 0, format!("svm-single {}", c.idx))
+}
+
 pub fn run(ctx: &Ctx) {
     ctx.set_rule(
         "every predictor family in the zoo x fitted instances (seeds) x batches {empty, single, all, reversed, \
@@ -421,5 +517,6 @@ pub fn run(ctx: &Ctx) {
     ctx.family("multi-target-wrapper", ctx.tier.pick(60, 600), check_multi_target);
     ctx.family("multi-class-wrapper", ctx.tier.pick(200, 3000), check_multi_class);
     ctx.family("platt-wrapper", ctx.tier.pick(60, 600), check_platt);
+    ctx.family("svm-single-observation", ctx.tier.pick(150, 1500), check_svm_single_observation);
     let _ = Axis(0);
 }
